@@ -108,7 +108,8 @@ pub fn big_operands(shape: usize, n: u64, corner: usize) -> (MultiPolygon<f64>, 
         _ => {
             // nested rings: n/2 annuli, annulus i = square ring between half-widths 2i+2 and 2i+1 around the centre
             let m = (n / 2).max(1);
-            let c = 2.0 * m as f64 + 2.0;
+            // the outermost annulus spans [0, 4m] in both directions, so that the corner box really cuts it
+            let c = 2.0 * m as f64;
             let mut v = Vec::new();
             for i in 0..m {
                 let (ro, ri) = (2.0 * i as f64 + 2.0, 2.0 * i as f64 + 1.0);
@@ -127,7 +128,9 @@ pub fn big_operands(shape: usize, n: u64, corner: usize) -> (MultiPolygon<f64>, 
         "top-right" => (w, h),
         _ => (w, 0.0),
     };
-    let b = MultiPolygon(vec![sq(bx - 1.0, by - 1.5, bx + 1.0, by + 1.5)]);
+    // for the nested rings the box stays inside the outermost band (width 1), clear of its hole
+    let hw = if SHAPES[shape] == "nested" { 0.75 } else { 1.0 };
+    let b = MultiPolygon(vec![sq(bx - hw, by - 1.5, bx + hw, by + 1.5)]);
     (a, b)
 }
 
